@@ -140,8 +140,8 @@ PROPS.update({
     "C20": {
         "title": "Diffs are deterministic and depend only on the equality pattern of the items",
         "module": "SimilarVerif.Props.C20",
-        "suites": ["determinism", "text", "api"],
-        "rule": "determinism: small exhaustive and random label sequences x 3 algorithms, each run twice in the calling thread, on two long-lived and (sampled) two freshly spawned threads, with a second hash salt and with injectively relabelled values; text: str vs bytes of the same text, repeated and threaded runs; non-trivial = diff has a change; api: every thin public entry point (per-algorithm modules, diff/diff_slices, capture wrappers, Capture::into_*, TextDiff::from_*, diff_slices, owned text types, builder/getter/formatter re-use, Change/InlineChange accessors and Display, udiff::unified_diff, remapper slices, get_close_matches on bytes) against its canonical path on exhaustive small and random cases (implementation-only, metamorphic)",
+        "suites": ["determinism", "text", "api", "tok"],
+        "rule": "determinism: small exhaustive and random label sequences x 3 algorithms, each run twice in the calling thread, on two long-lived and (sampled) two freshly spawned threads, with a second hash salt and with injectively relabelled values; text: str vs bytes of the same text, repeated and threaded runs; non-trivial = diff has a change; api: every thin public entry point (per-algorithm modules, diff/diff_slices, capture wrappers, Capture::into_*, TextDiff::from_*, diff_slices, owned text types, builder/getter/formatter re-use, Change/InlineChange accessors and Display, udiff::unified_diff, remapper slices, get_close_matches on bytes) against its canonical path on exhaustive small and random cases (implementation-only, metamorphic); tok: the str and [u8] tokenizers themselves (C20's last clause rests on their agreement): every scalar value between two letters through the word / line / char tokenizers of both modes, exhaustive",
         "theorem_status": "full at model level: injective relabelling gives the same environment hence the same result of every model function; unique/IdentifyDistinct specified without hash order; str = bytes tokens on valid UTF-8",
         "level_text": "Lean theorems about the model; threads and hasher seeds are runtime behaviour no executable model can exhibit and are covered by the harness (repeated, threaded, re-salted, relabelled runs must agree).",
         "level_note": "the runtime half (threads, RandomState) is testing, labelled as such",
